@@ -1,6 +1,7 @@
 import SstModel
 import Driver.Proto
 import Driver.Cmds
+import Driver.Session
 open Sst Sst.Proto
 
 /-- One request line in, one response line out. Unknown or ill-formed requests answer `bad-op`
@@ -36,7 +37,10 @@ def handle (line : String) : String :=
   | words =>
     match Sst.Cmds.handle words with
     | some r => r
-    | none => "bad-op"
+    | none =>
+      match Sst.Session.handle words with
+      | some r => r
+      | none => "bad-op"
 
 partial def loop (hin hout : IO.FS.Stream) : IO Unit := do
   let line ← hin.getLine
